@@ -96,6 +96,25 @@ type vfUnit struct {
 	journal *os.File
 	tmp     string
 	t       *testing.T
+	skipCases map[int]bool
+}
+
+// Case journals case idx of this unit (so that a process death is attributed to
+// it) and reports whether it should be executed (false: it killed an earlier child
+// and is skipped on this re-run).
+func (u *vfUnit) Case(idx int, key string, format string, a ...any) bool {
+	if u.skipCases[idx] {
+		return false
+	}
+	if u.journal != nil {
+		s := fmt.Sprintf(format, a...)
+		if len(s) > 6000 {
+			s = s[:6000]
+		}
+		line, _ := json.Marshal(map[string]any{"unit": u.Index, "case": idx, "key": key, "desc": s})
+		u.journal.Write(append(line, '\n'))
+	}
+	return true
 }
 
 func vfHash(s string) uint64 {
@@ -137,7 +156,7 @@ func (u *vfUnit) Journal(format string, a ...any) {
 	if len(s) > 4000 {
 		s = s[:4000]
 	}
-	line, _ := json.Marshal(map[string]any{"unit": u.Index, "desc": s})
+	line, _ := json.Marshal(map[string]any{"unit": u.Index, "case": -1, "desc": s})
 	u.journal.Write(append(line, '\n'))
 }
 
@@ -363,6 +382,16 @@ func vfChildMain(t *testing.T, c *vfCheck) {
 			skip[n] = true
 		}
 	}
+	skipCases := map[int]map[int]bool{}
+	for _, s := range strings.Split(os.Getenv("VERIF_SKIP_CASES"), ",") {
+		var a, b int
+		if n, _ := fmt.Sscanf(s, "%d:%d", &a, &b); n == 2 {
+			if skipCases[a] == nil {
+				skipCases[a] = map[int]bool{}
+			}
+			skipCases[a][b] = true
+		}
+	}
 	only := -1
 	if s := os.Getenv("VERIF_ONLY_UNIT"); s != "" {
 		only, _ = strconv.Atoi(s)
@@ -377,6 +406,7 @@ func vfChildMain(t *testing.T, c *vfCheck) {
 			continue
 		}
 		u := newUnit(c, i, tier, seed, journal, t)
+		u.skipCases = skipCases[i]
 		u.Journal("unit-start")
 		res := runUnit(c, u)
 		line, err := json.Marshal(res)
@@ -532,7 +562,9 @@ func vfParentMain(t *testing.T, c *vfCheck) {
 		go func(s int) {
 			defer wg.Done()
 			skip := []string{}
-			for attempt := 0; attempt < 200; attempt++ {
+			skipCases := []string{}
+			perUnitCrashes := map[int]int{}
+			for attempt := 0; attempt < 400; attempt++ {
 				out := filepath.Join(scratch, fmt.Sprintf("child-%d-%d.jsonl", s, attempt))
 				logp := filepath.Join(scratch, fmt.Sprintf("child-%d-%d.log", s, attempt))
 				logf, _ := os.Create(logp)
@@ -542,6 +574,7 @@ func vfParentMain(t *testing.T, c *vfCheck) {
 					fmt.Sprintf("VERIF_CHILD=%d/%d", s, shards),
 					"VERIF_CHILD_OUT="+out,
 					"VERIF_SKIP="+strings.Join(skip, ","),
+					"VERIF_SKIP_CASES="+strings.Join(skipCases, ","),
 					"VERIF_SEED="+strconv.FormatUint(seed, 10),
 					"VERIF_TIER="+tier.String(),
 					"GOTRACEBACK=all",
@@ -597,8 +630,8 @@ func vfParentMain(t *testing.T, c *vfCheck) {
 					return
 				}
 				// the child died: attribute to the last journalled case
-				unit, desc := vfLastJournal(out + ".journal")
-				logTail := vfTail(logp, 12000)
+				unit, caseIdx, caseKey, desc := vfLastJournal(out + ".journal")
+				logTail := vfCrashLog(logp)
 				mu.Lock()
 				if timedOut {
 					merged.inconclusive = append(merged.inconclusive, fmt.Sprintf("child %d watchdog (%v) fired in unit %d (%s); dump kept in witness", s, limit, unit, vfTrim(desc, 200)))
@@ -606,10 +639,10 @@ func vfParentMain(t *testing.T, c *vfCheck) {
 				} else {
 					crashes++
 					sig := vfCrashSig(logTail)
-					key := "crash:" + sig
+					key := "crash:" + caseKey + ":" + sig
 					merged.addViolation(vfViolation{Key: key, Unit: unit,
 						What:    fmt.Sprintf("process died (%v) while executing unit %d case %q\n%s", err, unit, vfTrim(desc, 500), vfTrim(vfCrashExcerpt(logTail), 2500)),
-						Witness: map[string]any{"case": desc, "stderr_tail": vfTrim(vfCrashExcerpt(logTail), 6000)}})
+						Witness: map[string]any{"case": desc, "case_index": caseIdx, "stderr_tail": vfTrim(vfCrashExcerpt(logTail), 6000)}})
 				}
 				mu.Unlock()
 				_ = lastDone
@@ -623,11 +656,17 @@ func vfParentMain(t *testing.T, c *vfCheck) {
 					skip = append(skip, strconv.Itoa(u))
 				}
 				mu.Unlock()
-				skip = append(skip, strconv.Itoa(unit))
-				// mark the crashed unit as seen so that it is not re-run
-				mu.Lock()
-				merged.unitsDone[unit] = true
-				mu.Unlock()
+				perUnitCrashes[unit]++
+				if caseIdx >= 0 && perUnitCrashes[unit] <= 3 {
+					// re-run the unit without the case that killed the process
+					skipCases = append(skipCases, fmt.Sprintf("%d:%d", unit, caseIdx))
+				} else {
+					skip = append(skip, strconv.Itoa(unit))
+					mu.Lock()
+					merged.unitsDone[unit] = true
+					merged.counters["units_abandoned_after_crashes"]++
+					mu.Unlock()
+				}
 			}
 		}(s)
 	}
@@ -791,25 +830,47 @@ func vfTail(path string, n int) string {
 	return string(b)
 }
 
-func vfLastJournal(path string) (int, string) {
+func vfLastJournal(path string) (int, int, string, string) {
 	b, err := os.ReadFile(path)
 	if err != nil {
-		return -1, ""
+		return -1, -1, "", ""
 	}
 	lines := strings.Split(strings.TrimRight(string(b), "\n"), "\n")
 	for i := len(lines) - 1; i >= 0; i-- {
 		var j struct {
 			Unit int    `json:"unit"`
+			Case int    `json:"case"`
+			Key  string `json:"key"`
 			Desc string `json:"desc"`
 		}
 		if json.Unmarshal([]byte(lines[i]), &j) == nil {
-			return j.Unit, j.Desc
+			return j.Unit, j.Case, j.Key, j.Desc
 		}
 	}
-	return -1, ""
+	return -1, -1, "", ""
 }
 
 var vfPanicRe = regexp.MustCompile(`(?m)^(panic: .*|fatal error: .*)$`)
+
+// vfCrashLog returns the child's log from the first panic / fatal error line on.
+func vfCrashLog(path string) string {
+	b, err := os.ReadFile(path)
+	if err != nil {
+		return ""
+	}
+	s := string(b)
+	if loc := vfPanicRe.FindStringIndex(s); loc != nil {
+		s = s[loc[0]:]
+		if len(s) > 16000 {
+			s = s[:16000]
+		}
+		return s
+	}
+	if len(s) > 12000 {
+		s = s[len(s)-12000:]
+	}
+	return s
+}
 
 func vfCrashExcerpt(log string) string {
 	loc := vfPanicRe.FindStringIndex(log)
